@@ -218,10 +218,116 @@ def build():
                    '     == view(*self).update(verif_ld, nb)'
                    '   && wf_of(splice3(self.data@, dest as int * self.symbol_size as int, dest as int * self.symbol_size as int + self.symbol_size as int, nb), self.count as int, self.symbol_size as int, map_of(*self))'
                    ' by { lemma_write_symbol(self.data@, self.count as int, self.symbol_size as int, map_of(*self), verif_ld, nb); } }')],
-         ensures=['r.0@ == view(*old(self))[dest as int]', 'r.1@ == view(*old(self))[src as int]', 'final(r.0)@.len() == r.0@.len()',
+         ensures=['r.0@ == view(*old(self))[dest as int]', 'r.1@ == view(*old(self))[src as int]', 'final(r.0)@.len() == r.0@.len()', 'r.0@.len() == old(self).symbol_size', 'r.1@.len() == old(self).symbol_size',
                   'slab_wf(*final(self))', 'view(*final(self)) == view(*old(self)).update(dest as int, final(r.0)@)',
                   'final(self).count == old(self).count && final(self).symbol_size == old(self).symbol_size && final(self).mapping == old(self).mapping'],
          )
+    OPREQ2 = ['slab_wf(*old(self))', '(dest as int) < old(self).count', '(src as int) < old(self).count', 'dest != src']
+    FRAME = 'final(self).count == old(self).count && final(self).symbol_size == old(self).symbol_size && final(self).mapping == old(self).mapping'
+    u.fn('src/symbol_slab.rs', 'add_assign', impl='impl SymbolSlab', ret='r', requires=OPREQ2,
+         ensures=['slab_wf(*final(self))', FRAME,
+                  'view(*final(self)) == view(*old(self)).update(dest as int, xor_seq(view(*old(self))[dest as int], view(*old(self))[src as int]))'])
+    u.fn('src/symbol_slab.rs', 'mulassign_scalar', impl='impl SymbolSlab', ret='r',
+         requires=['slab_wf(*old(self))', '(dest as int) < old(self).count'],
+         ensures=['slab_wf(*final(self))', FRAME,
+                  'view(*final(self)) == view(*old(self)).update(dest as int, mul_seq(view(*old(self))[dest as int], scalar.value))'])
+    u.fn('src/symbol_slab.rs', 'fma', impl='impl SymbolSlab', ret='r', requires=OPREQ2,
+         ensures=['slab_wf(*final(self))', FRAME,
+                  'view(*final(self)) == view(*old(self)).update(dest as int, xor_seq(view(*old(self))[dest as int], mul_seq(view(*old(self))[src as int], scalar.value)))'])
+    u.fn('src/symbol_slab.rs', 'set_reorder', impl='impl SymbolSlab', ret='r',
+         requires=['slab_wf(*old(self))', 'old(self).mapping.is_none()', 'map_ok(order@, old(self).count as int)'],
+         ensures=['slab_wf(*final(self))', 'final(self).count == old(self).count && final(self).symbol_size == old(self).symbol_size',
+                  'view(*final(self)) == Seq::new(order@.len(), |i: int| view(*old(self))[order@[i] as int])'],
+         append='proof { assert(view(*self) =~= Seq::new(order@.len(), |i: int| view(*old(self))[order@[i] as int])); }')
     u.raw('}')
+    # the op interpreter
+    u.fn('src/operation_vector.rs', 'perform_op', ret='r',
+         requires=['slab_wf(*old(symbols))', 'op_ok(*old(symbols), *op)'],
+         ensures=['slab_wf(*final(symbols))', 'final(symbols).count == old(symbols).count && final(symbols).symbol_size == old(symbols).symbol_size',
+                  'view(*final(symbols)) == apply_op(view(*old(symbols)), *op)',
+                  '(match *op { SymbolOps::Reorder { order } => true, _ => final(symbols).mapping == old(symbols).mapping })'])
+    # ---------------- D vector and plan replay (src/encoder.rs)
+    u.struct('src/symbol.rs', 'Symbol')
+    u.raw("""
+impl Symbol {
+    #[verifier::external_body]
+    pub fn as_bytes(&self) -> (r: &[u8]) ensures r@ == self.value@ { unimplemented!() }
+}
+pub uninterp spec fn kprime_of(k: int) -> int;
+pub uninterp spec fn s_of(k: int) -> int;
+pub uninterp spec fn h_of(k: int) -> int;
+pub open spec fn l_of(k: int) -> int { kprime_of(k) + s_of(k) + h_of(k) }
+pub open spec fn consts_ok(k: int) -> bool { k <= kprime_of(k) <= 56403 && 1 <= s_of(k) <= 907 && 1 <= h_of(k) <= 16 && l_of(k) < 65536 }
+// the D vector of RFC 6330 5.3.3.4.2 for the encoder: S+H zero symbols, the K source symbols, K'-K zero padding symbols
+pub open spec fn d_spec(src: Seq<Seq<u8>>, ss: int) -> Seq<Seq<u8>> {
+    let k = src.len() as int;
+    Seq::new(l_of(k) as nat, |r: int| if s_of(k) + h_of(k) <= r < s_of(k) + h_of(k) + k { src[r - s_of(k) - h_of(k)] } else { Seq::new(ss as nat, |j: int| 0u8) })
+}
+pub open spec fn sym_views(src: Seq<Symbol>) -> Seq<Seq<u8>> { Seq::new(src.len(), |i: int| src[i].value@) }
+// a plan is executable on `count` symbols: indices in range, dest != src, and a Reorder only as the final op with a permutation
+pub open spec fn plan_ok(ops: Seq<SymbolOps>, count: int) -> bool {
+    forall |i: int| 0 <= i < ops.len() ==> match #[trigger] ops[i] {
+        SymbolOps::AddAssign { dest, src } => (dest as int) < count && (src as int) < count && dest != src,
+        SymbolOps::MulAssign { dest, scalar } => (dest as int) < count,
+        SymbolOps::FMA { dest, src, scalar } => (dest as int) < count && (src as int) < count && dest != src,
+        SymbolOps::Reorder { order } => i == ops.len() - 1 && map_ok(order@, count),
+    }
+}
+pub open spec fn no_reorder_before(ops: Seq<SymbolOps>, n: int) -> bool {
+    forall |i: int| 0 <= i < n ==> !(#[trigger] ops[i] is Reorder)
+}
+// C09: a plan acts on every byte column independently, so it is valid for every symbol size
+pub proof fn lemma_plan_column_independence(v: Seq<Seq<u8>>, ops: Seq<SymbolOps>, n: nat, ss: int, j: int)
+    requires uniform(v, ss), 0 <= j < ss, n <= ops.len(), plan_ok(ops, v.len() as int),
+    ensures column(apply_ops(v, ops, n), j) == apply_ops(column(v, j), ops, n), uniform(apply_ops(v, ops, n), ss),
+            apply_ops(v, ops, n).len() == v.len(),
+    decreases n,
+{
+    if n > 0 {
+        lemma_plan_column_independence(v, ops, (n - 1) as nat, ss, j);
+        let prev = apply_ops(v, ops, (n - 1) as nat);
+        let op = ops[n - 1];
+        assert(op_in_range(prev, op)) by {
+            match op {
+                SymbolOps::Reorder { order } => { assert(map_ok(order@, v.len() as int)); }
+                _ => { }
+            }
+        }
+        lemma_column_independence(prev, op, ss, j);
+        match op {
+            SymbolOps::Reorder { order } => { assert(apply_op(prev, op).len() == v.len()); }
+            _ => { }
+        }
+    }
+}
+""", label='D vector / plan semantics')
+    for name, sp in [('num_intermediate_symbols', 'l_of'), ('num_ldpc_symbols', 's_of'), ('num_hdpc_symbols', 'h_of'), ('extended_source_block_symbols', 'kprime_of')]:
+        u.fn('src/systematic_constants.rs', name, ret='r', external_body=True,
+             requires=['source_block_symbols <= 56403'],
+             ensures=['r as int == %s(source_block_symbols as int)' % sp, 'consts_ok(source_block_symbols as int)'])
+    u.trust('table look-ups (num_intermediate_symbols, num_ldpc_symbols, num_hdpc_symbols, extended_source_block_symbols): contracts proved in V-TAB / K-TAB; assumed here')
+    SRC_OK = ['source_block@.len() <= 56403', 'forall |i: int| 0 <= i < source_block@.len() ==> (#[trigger] source_block@[i]).value@.len() == symbol_size as int', 'symbol_size <= 65535']
+    u.fn('src/encoder.rs', 'create_d', ret='D', rules=['D1'],
+         requires=SRC_OK,
+         ensures=['slab_wf(D)', 'D.mapping.is_none()', 'D.symbol_size == symbol_size', 'D.count as int == l_of(source_block@.len() as int)',
+                  'view(D) == d_spec(sym_views(source_block@), symbol_size as int)'],
+         inserts=[('let mut D = SymbolSlab::with_zeros', 'before',
+                   'proof { assert(L as int * symbol_size as int <= 65536 * 65535) by (nonlinear_arith) requires 0 <= L as int <= 65536, 0 <= symbol_size as int <= 65535; }')],
+         loops={0: {'spec': 'invariant source_block@.len() <= 56403, forall |k: int| 0 <= k < source_block@.len() ==> (#[trigger] source_block@[k]).value@.len() == symbol_size as int,'
+                            ' consts_ok(source_block@.len() as int), L as int == l_of(source_block@.len() as int), S as int == s_of(source_block@.len() as int), H as int == h_of(source_block@.len() as int),'
+                            ' slab_wf(D), D.mapping.is_none(), D.symbol_size == symbol_size, D.count == L as usize, view(D).len() == L as int,'
+                            ' forall |r: int| 0 <= r < L as int ==> #[trigger] view(D)[r] == (if (S as int + H as int <= r && r < S as int + H as int + (i as int)) { source_block@[r - S as int - H as int].value@ } else { Seq::new(symbol_size as nat, |j: int| 0u8) }),'}})
+    u.fn('src/encoder.rs', 'gen_intermediate_symbols_with_plan', ret='r', rules=['D7'],
+         resubst=[(r'for op in operation_vector\.iter\(\) \{', 'for op in verif_it: operation_vector.iter() {', 'name-iterator')],
+         requires=SRC_OK + ['plan_ok(operation_vector@, l_of(source_block@.len() as int))'],
+         ensures=['slab_wf(r)', 'r.symbol_size == symbol_size',
+                  # plan replay == folding the op semantics over the D vector (C06), for every symbol size (C09)
+                  'view(r) == apply_ops(d_spec(sym_views(source_block@), symbol_size as int), operation_vector@, operation_vector@.len())'],
+         loops={0: {'spec': 'invariant slab_wf(D), D.symbol_size == symbol_size, D.count as int == l_of(source_block@.len() as int), plan_ok(operation_vector@, l_of(source_block@.len() as int)),'
+                            ' (no_reorder_before(operation_vector@, verif_it.index@) ==> D.mapping.is_none()), verif_it.index@ <= operation_vector@.len(),'
+                            ' no_reorder_before(operation_vector@, verif_it.index@) || verif_it.index@ == operation_vector@.len(),'
+                            ' view(D) == apply_ops(d_spec(sym_views(source_block@), symbol_size as int), operation_vector@, verif_it.index@ as nat),',
+                    'body_top': 'proof { assert(op_ok(D, *op)) by { let i = verif_it.index@; assert(operation_vector@[i] == *op); } }'}})
     u.raw('} // verus!')
     return u
+
